@@ -29,6 +29,7 @@ def run_cases(report, group, progs, cases, modules=None, model=True, nbins=8):
     """progs: {pid: prog}; cases: [Case]. Returns per-case (impl_outputs, model_outputs) or None after reporting a broken build."""
     mods = modules or [(pid, eng.rs_module(pid, p)) for pid, p in progs.items()]
     bins, log, wall = tieb.build(group, mods, nbins=nbins)
+    report._bins = bins
     report.cov["harness_build_s"] = round(report.cov.get("harness_build_s", 0) + wall, 1)
     if bins is None:
         tieb.report_build_failure(report, group, mods, log)
@@ -82,7 +83,7 @@ def canon_iters(line):
     return line
 
 
-def run_property(pid_prop, tier, *, modules, theorems, trusted, group, build, oracle, rule, what, known=None, replay=None, nbins=8, canon=None):
+def run_property(pid_prop, tier, *, modules, theorems, trusted, group, build, oracle, rule, what, known=None, replay=None, nbins=8, canon=None, extra=None):
     """common skeleton of the tie-B checks.
     build(rng, tier) -> (progs {pid: prog}, rust modules [(pid, text)] or None, cases [Case])
     oracle(case, prog, out_lines) -> None | why   (the property, decided without the Lean model)"""
@@ -118,6 +119,7 @@ def run_property(pid_prop, tier, *, modules, theorems, trusted, group, build, or
         k = c.meta.get("kind", "case"); hist[k] = hist.get(k, 0) + 1
     if cases:
         r.sample({"program": eng.rs_program(progs[cases[0].pid]), "history": cases[0].ops, "impl": outs[0][0]})
+    if extra: extra(r, d, progs, getattr(r, "_bins", None), tier)
     r.cov["programs"] = len(progs)
     r.cov["case_kinds"] = hist
     r.cov["rule"] = rule
